@@ -26,8 +26,8 @@ func init() {
 			ruleSanitiserSites(r)
 			ruleSelectLogsWindow(r)
 			ruleOffloadProvenance(r)
-			ruleRangeBuild(r)   // the window a metric query asks the daemon for: [start-offset-range, end-offset]
-			ruleKeyToLabel(r)   // a container is selectable under the sanitised name of each of its labels
+			ruleRangeBuild(r) // the window a metric query asks the daemon for: [start-offset-range, end-offset]
+			ruleKeyToLabel(r) // a container is selectable under the sanitised name of each of its labels
 		},
 	})
 }
